@@ -2854,7 +2854,10 @@ class Interp:
             if r_ is not NotImplemented:
                 return r_
         # ---- opaque receivers
-        if isinstance(base, (Opaque, Sym)) and (isinstance(base.attrs.get(attr), (Callback, FuncVal, LambdaVal, Builtin, TypeVal, BoundMethod)) or hasattr(base.attrs.get(attr), "ai_invoke")):
+        av_ = base.attrs.get(attr) if isinstance(base, (Opaque, Sym)) else None
+        if isinstance(base, (Opaque, Sym)) and (isinstance(av_, (Callback, FuncVal, LambdaVal, Builtin, TypeVal, BoundMethod)) or hasattr(av_, "ai_invoke")
+                                                or (isinstance(av_, Opaque) and av_.attrs and av_.kind not in ("obj", "iter", "list", "dict", "set")
+                                                    and self._class_method(av_.kind, "__call__") is not None)):
             # an attribute holding a callable (self.transform)
             return self.call(base.attrs[attr], pos, kw, node, env)
         if isinstance(base, Opaque) and base.attrs and base.name not in ("self", "cls") and base.kind not in ("obj", "iter", "list", "dict", "set"):
